@@ -349,7 +349,7 @@ def crash_case(rep, where):
             obls['append-after-crash:new-record-intact'] = o['new_intact']
             obls['append-after-crash:no-garbage-left'] = o['length'] == h + (k + 1) * R
         for cl, goal in obls.items():
-            r, m = prove(goal, A, name=f'{name}/path{i}:{cl}')
+            r, m = prove(goal, A, timeout_ms=600000, name=f'{name}/path{i}:{cl}')
             rep.ob(f'{name}/path{i}:{cl}', r)
             if r == 'sat':
                 vals = {str(v): int(model_value(m, v)) for v in (nVar, k, c, idx)}
